@@ -197,7 +197,7 @@ def instr(res, idx, tier):
             elif l == "m" and w == 4:
                 choices[l] = list(range(16))
             elif l == "i" and w == 12:
-                choices[l] = [0x000, 0x0FF, 0x4FF, 0x21F, 0x8F1, 0x11D, 0x213]
+                choices[l] = [0x000, 0x0FF, 0x4FF, 0x21F, 0x8F1, 0x11D, 0x213, 0x8FF, 0x80A, 0x6FF, 0xCA5]   # incl. GE<3:0>, Q, E/A bytes
             elif l == "i" and w == 8:
                 choices[l] = [0, 4, 8, 0xFF]
             elif l == "i" and w == 24:
